@@ -26,6 +26,16 @@ class Prop:
         raise NotImplementedError
 
 
+def with_eager(tiers: dict, extra: list) -> dict:
+    """Add `<profile>-eager` entries (same workload, loop configured with asyncio's eager task factory; see runner._execute):
+    `extra` lists (profile, quick count); the thorough tier gets 20x."""
+    out = {k: list(v) for k, v in tiers.items()}
+    for name, n in extra:
+        out["quick"].append((f"{name}-eager", n))
+        out["thorough"].append((f"{name}-eager", n * 20))
+    return out
+
+
 def sweep_expand(prop, seed, profile, run, sample, max_k=255):
     """Fault-position sweep: run the fault-free twin (choice 0 forced to 0), then re-run it once per
     loop iteration k with the fault injected at iteration k (choices of the twin replayed as the
